@@ -250,6 +250,8 @@ def run(ctx):
     # ---- R3 / R4 shared clauses ---------------------------------------------------------------------------
     C.import_rules(ctx, "C05", ["R1", "R2"], "R3")
     C.import_rules(ctx, "C04", ["R1", "R2", "R3", "R4", "R5"], "R4")
+    # every path is delivered only if no command line is refused by exec: the system budget (C06.R1, R2)
+    C.import_rules(ctx, "C06", ["R1", "R2"], "R4", key_prefix="budget")
     # "the starting point as given": the operands reach the walk as they were typed (C18.R1). Imported last: C18 in turn
     # imports R2 of this property, which is complete by now.
     C.import_rules(ctx, "C18", ["R1"], "R2", key_prefix="as-given")
